@@ -89,11 +89,9 @@ func (p *Pickle) Handle(c io.Reader) error {
 		log.Debug("pickle.go: decoding pickled data...")
 		rawDecoded, err := decoder.Decode()
 		if err != nil {
-			if err != io.ErrUnexpectedEOF {
-				return fmt.Errorf("error reading pickled data: %s", err.Error())
-			}
-			log.Debug("pickle.go: detected ErrUnexpectedEOF while decoding pickled data, nothing more to decode, breaking")
-			return nil
+			// this includes io.ErrUnexpectedEOF: the frame was read completely, so a pickle
+			// that ends before its STOP opcode is a malformed frame, not the end of the stream
+			return fmt.Errorf("error reading pickled data: %s", err.Error())
 		}
 		log.Debug("pickle.go: done decoding pickled data")
 
